@@ -684,9 +684,6 @@ def _judge_unserialisable(case, fam, out, want_good, exp_type, exp_args, exp_var
              "the client could not rebuild %s from the transported args and raised a bare %s(%s) - neither the original nor a Pyro error describing it" % (
                  clsname, qualname(type(x)), short(str(x), 100)))
         return
-    if ser == "marshal" and pg == "batch" and type(x) is ValueError and x.args == ("unmarshallable object",):
-        viol("marshal-batch-exception-unmarshallable", "a failing batch member under marshal: the caller got ValueError('unmarshallable object')")
-        return
     viol(_lost_signature(case), "the caller got %s(%s) which is neither %s nor a PyroError naming %r and its message %r" % (
         qualname(type(x)), short(text, 140), clsname, clsname, exp_msg))
 
